@@ -58,6 +58,7 @@ structure MSt where
   steps : List TStep := []     -- reversed
   m6 : M6 := {}
   m11 : M11 := {}
+  oracle : Option UState := none   -- the model run in lockstep on the real requests; dropped after the first disagreement
   issued : Nat := 0
   fwd : Nat := 0
   events : Nat := 0
@@ -65,7 +66,27 @@ structure MSt where
   baseFails : Nat := 0
 
 def monInit (f : List String) : MSt :=
-  { cap := kv f "cap", q := kv f "q", fill := max 1 (kv f "fill"), minLen := kv f "minlen" }
+  { cap := kv f "cap", q := kv f "q", fill := max 1 (kv f "fill"), minLen := kv f "minlen",
+    oracle := some { t := TState.init (kv f "cap") (kv f "q") (kv f "minlen") } }
+
+def hasBWrite (obs : List TObs) : Bool := obs.any fun o => match o with | .bWrite .. => true | _ => false
+
+/-- budget decisions, judged against the bucket state the history so far implies (the model run in lockstep
+on the real requests): the first request on which the real throttle decides otherwise, classified by what it did -/
+def budgetVerdict (r : TReq) (exp got : List TObs) : List String :=
+  if exp == got then [] else
+  match r with
+  | .start .. =>
+    if hasBStart got && !hasBStart exp then ["C06:file-started-without-a-minimum-clip-of-budget", "C05:start-forwarded-beyond-the-budget"]
+    else if !hasBStart got && hasBStart exp then ["C06:start-suppressed-although-the-budget-suffices"]
+    else ["C06:start-handled-differently-from-the-budget-rules"]
+  | .write .. =>
+    if hasBWrite got && !hasBWrite exp then ["C05:frame-forwarded-beyond-the-budget", "C06:frame-forwarded-beyond-the-budget"]
+    else if hasBStop got && !hasBStop exp then ["C06:file-cut-although-the-budget-suffices"]
+    else if !hasBWrite got && hasBWrite exp then ["C06:frame-dropped-although-the-budget-suffices"]
+    else if hasBStart got && !hasBStart exp then ["C06:file-restarted-without-a-minimum-clip-of-budget"]
+    else ["C06:frame-handled-differently-from-the-budget-rules"]
+  | .stop _ => ["C06:stop-handled-differently-from-the-budget-rules"]
 
 def fmt (fs : List String) : List String :=
   fs.map fun s => match s.splitOn ":" with
@@ -82,9 +103,15 @@ def monStep (m : MSt) (bl : Block) : MSt × List String :=
     let st : TStep := { req := r, obs := obs }
     let m6 := M6.step m.minLen m.m6 st
     let m11 := M11.step m.m11 st
-    let fails := m6.fails.drop m.m6.fails.length ++ m11.fails.drop m.m11.fails.length
+    let (oracle, fb) : Option UState × List String := match m.oracle with
+      | none => (none, [])
+      | some u =>
+        match ustep u r with
+        | (u', some exp) => let v := budgetVerdict r exp obs; (if v.isEmpty then some u' else none, v)
+        | (_, none) => (none, ["C06:request-outside-the-recorder-protocol"])
+    let fails := m6.fails.drop m.m6.fails.length ++ m11.fails.drop m.m11.fails.length ++ fb
     let isWrite := match r with | .write .. => true | _ => false
-    ({ m with steps := st :: m.steps, m6 := m6, m11 := m11, issued := m.issued + 1, fwd := m.fwd + fwdCount obs,
+    ({ m with steps := st :: m.steps, m6 := m6, m11 := m11, oracle := oracle, issued := m.issued + 1, fwd := m.fwd + fwdCount obs,
               events := m.events + countThrottled obs,
               cuts := m.cuts + (if isWrite && hasBStop obs then 1 else 0),
               baseFails := m.baseFails + (if obs.any (fun o => match o with | .bStart _ false => true | _ => false) then 1 else 0) },
